@@ -15,10 +15,12 @@ import (
 	"math/rand"
 	"net"
 	"os"
+	"runtime"
 	"sort"
 	"strconv"
 	"strings"
 	"sync"
+	"sync/atomic"
 	"testing"
 	"testing/synctest"
 	"time"
@@ -33,10 +35,38 @@ import (
 
 type ev = map[string]any
 
+// tracer buffers the events of one behaviour and appends them to the file when the behaviour is over, so that
+// a crash of the process loses nothing but the behaviour that caused it.
+type tracer struct {
+	mu  sync.Mutex
+	f   *os.File
+	buf bytes.Buffer
+	N   int
+}
+
+func (t *tracer) Emit(e ev) {
+	b, err := json.Marshal(e)
+	if err != nil {
+		panic(err)
+	}
+	t.mu.Lock()
+	t.buf.Write(b)
+	t.buf.WriteByte('\n')
+	t.N++
+	t.mu.Unlock()
+}
+
+func (t *tracer) Flush() {
+	t.mu.Lock()
+	t.f.Write(t.buf.Bytes())
+	t.buf.Reset()
+	t.mu.Unlock()
+}
+
 const maxHeaderList = 2048
 
 type step struct {
-	A    string `json:"a"`   // req | rst | fin
+	A    string `json:"a"`   // req | rst | fin | finmsg | winup
 	Sid  int    `json:"sid"` // concrete stream id; -1: resolve from C (req) / Pick (rst, fin)
 	C    string `json:"c"`   // stream id class (generation only)
 	Pick int    `json:"pick"`
@@ -53,6 +83,7 @@ type step struct {
 }
 
 type beh struct {
+	Win   string `json:"win"` // "tiny": the client announces SETTINGS_INITIAL_WINDOW_SIZE 16 and never opens the window by itself
 	Cap   int    `json:"cap"`
 	Mut   int    `json:"mut"` // number of byte-level mutations (0: faithful replay)
 	Steps []step `json:"steps"`
@@ -65,10 +96,11 @@ type recorder struct {
 	running map[int]bool
 	entered []int
 	release map[int]chan struct{}
+	withMsg map[int]bool // the handler sends a 4 KB response message before it returns
 }
 
 func newRecorder() *recorder {
-	return &recorder{running: map[int]bool{}, release: map[int]chan struct{}{}}
+	return &recorder{running: map[int]bool{}, release: map[int]chan struct{}{}, withMsg: map[int]bool{}}
 }
 
 func (r *recorder) rel(rid int) chan struct{} {
@@ -107,6 +139,13 @@ func (r *recorder) handler(_ any, ss grpc.ServerStream) error {
 	case <-ss.Context().Done():
 		return ss.Context().Err()
 	case <-r.rel(rid):
+		r.mu.Lock()
+		msg := r.withMsg[rid]
+		r.mu.Unlock()
+		if msg {
+			b := make([]byte, 4096)
+			return ss.SendMsg(&b)
+		}
 		return nil
 	}
 }
@@ -292,6 +331,7 @@ func (c *client) readLoop() {
 			s.code = int(f.ErrCode)
 		case *http2.DataFrame:
 			s.typ = "data"
+			s.es = f.StreamEnded()
 			s.length = len(f.Data())
 		default:
 			continue
@@ -380,13 +420,16 @@ func mutate(frames [][]byte, n int, rng *rand.Rand) ([]byte, []string) {
 }
 
 // ---------------------------------------------------------------------------------------------
-func runBeh(t *testing.T, b beh, idx int, seed int64, tr *vlib.Trace) {
-	tr.Emit(ev{"ev": "reset", "b": idx, "cap": b.Cap, "mut": b.Mut})
+func runBeh(t *testing.T, b beh, idx int, seed int64, tr *tracer) {
+	if b.Win == "" {
+		b.Win = "normal"
+	}
+	tr.Emit(ev{"ev": "reset", "b": idx, "cap": b.Cap, "mut": b.Mut, "win": b.Win})
 	synctest.Test(t, func(t *testing.T) {
 		rec := newRecorder()
 		lis := bufconn.Listen(1 << 20)
 		srv := grpc.NewServer(grpc.MaxConcurrentStreams(uint32(b.Cap)), grpc.MaxHeaderListSize(maxHeaderList),
-			grpc.UnknownServiceHandler(rec.handler))
+			grpc.UnknownServiceHandler(rec.handler), grpc.ForceServerCodec(rawh2.RawCodec{}))
 		go srv.Serve(lis)
 		conn, err := lis.Dial()
 		if err != nil {
@@ -395,7 +438,11 @@ func runBeh(t *testing.T, b beh, idx int, seed int64, tr *vlib.Trace) {
 		mem := &memConn{}
 		bld, _ := rawh2.NewClientPeer(mem) // builder: the preface goes to mem
 		bld.Fr.AllowIllegalWrites = true
-		bld.WriteSettings()
+		var settings []http2.Setting
+		if b.Win == "tiny" {
+			settings = append(settings, http2.Setting{ID: http2.SettingInitialWindowSize, Val: 16})
+		}
+		bld.WriteSettings(settings...)
 		all := mem.take() // [preface, SETTINGS]
 
 		var cl *client
@@ -404,7 +451,7 @@ func runBeh(t *testing.T, b beh, idx int, seed int64, tr *vlib.Trace) {
 			if sendPreface {
 				p, err = rawh2.NewClientPeer(conn)
 				if err == nil {
-					err = p.WriteSettings()
+					err = p.WriteSettings(settings...)
 				}
 			} else {
 				// the (mutated) byte stream carries its own preface: wrap conn without writing
@@ -430,8 +477,16 @@ func runBeh(t *testing.T, b beh, idx int, seed int64, tr *vlib.Trace) {
 			}
 			return out
 		}
+		var blockedNow []int
 		resolve := func(st *step, running []int) bool {
 			if st.Sid >= 0 {
+				return true
+			}
+			if st.A == "winup" {
+				if len(blockedNow) == 0 {
+					return false
+				}
+				st.Sid = blockedNow[st.Pick%len(blockedNow)]
 				return true
 			}
 			if st.A != "req" {
@@ -473,6 +528,8 @@ func runBeh(t *testing.T, b beh, idx int, seed int64, tr *vlib.Trace) {
 				bld.WriteHeaders(uint32(st.Sid), st.Es, headerFields(st, rid)...)
 			case "rst":
 				bld.WriteRST(uint32(st.Sid), http2.ErrCodeCancel)
+			case "winup":
+				bld.WriteWindowUpdate(uint32(st.Sid), 1<<20)
 			}
 			return mem.take()
 		}
@@ -482,7 +539,7 @@ func runBeh(t *testing.T, b beh, idx int, seed int64, tr *vlib.Trace) {
 			running := []int{}
 			for i := range b.Steps {
 				st := b.Steps[i]
-				if st.A == "fin" || !resolve(&st, running) {
+				if st.A == "fin" || st.A == "finmsg" || st.A == "winup" || !resolve(&st, running) {
 					continue
 				}
 				if st.A == "req" {
@@ -502,17 +559,18 @@ func runBeh(t *testing.T, b beh, idx int, seed int64, tr *vlib.Trace) {
 			synctest.Wait()
 			_, run := rec.snapshot()
 			_, closed := cl.take()
-			tr.Emit(ev{"ev": "raw", "mut": desc, "n": len(data), "running": run, "alive": !closed})
+			tr.Emit(ev{"ev": "raw", "mut": desc, "n": len(data), "running": run, "active": run, "alive": !closed})
 			// second observation: the peer goes away in the middle of whatever it was doing
 			conn.Close()
 			synctest.Wait()
 			_, run = rec.snapshot()
-			tr.Emit(ev{"ev": "raw", "mut": []string{"close"}, "n": 0, "running": run, "alive": false})
+			tr.Emit(ev{"ev": "raw", "mut": []string{"close"}, "n": 0, "running": run, "active": run, "alive": false})
 		} else {
 			start(true)
 			synctest.Wait()
 			cl.take()
 			running := []int{}
+			admitted := map[int]bool{} // admitted streams still open on the wire
 			for i := range b.Steps {
 				st := b.Steps[i]
 				if !resolve(&st, running) {
@@ -529,11 +587,19 @@ func runBeh(t *testing.T, b beh, idx int, seed int64, tr *vlib.Trace) {
 					for _, f := range build(st, rid) {
 						cl.p.WriteRaw(f)
 					}
-				case "rst":
+				case "rst", "winup":
 					for _, f := range build(st, rid) {
 						cl.p.WriteRaw(f)
 					}
-				case "fin":
+					if st.A == "rst" {
+						delete(admitted, st.Sid)
+					}
+				case "fin", "finmsg":
+					if st.A == "finmsg" {
+						rec.mu.Lock()
+						rec.withMsg[ridOfSid[st.Sid]] = true
+						rec.mu.Unlock()
+					}
 					ch := rec.rel(ridOfSid[st.Sid])
 					select {
 					case <-ch:
@@ -554,8 +620,35 @@ func runBeh(t *testing.T, b beh, idx int, seed int64, tr *vlib.Trace) {
 					}
 				}
 				running = sids(run)
+				for _, s := range sids(ent) {
+					admitted[s] = true
+				}
+				for _, f := range frames { // END_STREAM or RST_STREAM from the server ends the stream on the wire
+					if f.typ == "rst" || ((f.typ == "headers" || f.typ == "data") && f.es) {
+						delete(admitted, f.sid)
+					}
+				}
+				if closed {
+					admitted = map[int]bool{}
+				}
+				active := []int{}
+				for s := range admitted {
+					active = append(active, s)
+				}
+				sort.Ints(active)
+				isRunning := map[int]bool{}
+				for _, s := range running {
+					isRunning[s] = true
+				}
+				blockedNow = blockedNow[:0]
+				for _, s := range active {
+					if !isRunning[s] {
+						blockedNow = append(blockedNow, s)
+					}
+				}
 				e["entered"] = sids(ent)
 				e["running"] = running
+				e["active"] = active
 				e["alive"] = !closed
 				obs := ev{"k": "none", "http": 0, "grpc": 0, "code": 0, "rst": false}
 				for _, f := range frames {
@@ -565,7 +658,7 @@ func runBeh(t *testing.T, b beh, idx int, seed int64, tr *vlib.Trace) {
 					case f.sid != st.Sid:
 					case f.typ == "headers" && f.hasSt:
 						obs["k"], obs["http"], obs["grpc"] = "abort", f.http, f.grpc
-						if st.A == "fin" {
+						if st.A != "req" {
 							obs["k"] = "trailers"
 						}
 					case f.typ == "rst":
@@ -627,19 +720,41 @@ func TestVerifC12Replay(t *testing.T) {
 	if err != nil {
 		t.Fatal(err)
 	}
-	tr, err := vlib.NewTrace(os.Getenv("VERIF_OUT"))
+	f, err := os.Create(os.Getenv("VERIF_OUT"))
 	if err != nil {
 		t.Fatal(err)
 	}
-	defer tr.Close()
+	defer f.Close()
+	tr := &tracer{f: f}
 	seed := int64(vlib.EnvInt("VERIF_SEED", 1))
 	base := vlib.EnvInt("VERIF_BASE", 0)
+	// watchdog (real time, outside every bubble): a behaviour that makes no progress for VERIF_HANG_S seconds has
+	// wedged the server (goroutines blocked on a mutex are invisible to testing/synctest): report it and stop
+	var cur, since atomic.Int64
+	since.Store(time.Now().UnixNano())
+	limit := time.Duration(vlib.EnvInt("VERIF_HANG_S", 60)) * time.Second
+	go func() {
+		for {
+			time.Sleep(500 * time.Millisecond)
+			if time.Since(time.Unix(0, since.Load())) > limit {
+				fmt.Printf("\nVERIF_HANG %d\n", cur.Load())
+				buf := make([]byte, 1<<20)
+				os.Stdout.Write(buf[:runtime.Stack(buf, true)])
+				os.Exit(3)
+			}
+		}
+	}()
 	for i, ln := range lines {
 		var b beh
 		if err := json.Unmarshal(ln, &b); err != nil {
 			t.Fatal(err)
 		}
+		cur.Store(int64(base + i))
+		since.Store(time.Now().UnixNano())
+		fmt.Printf("VERIF_BEGIN %d\n", base+i)
 		runBeh(t, b, base+i, seed, tr)
+		tr.Flush()
 	}
+	since.Store(time.Now().Add(time.Hour).UnixNano())
 	fmt.Printf("VERIF_SUMMARY {\"behaviours\":%d,\"events\":%d}\n", len(lines), tr.N)
 }
